@@ -35,6 +35,14 @@ def _same_instant(o, dt, tod, exact, alt):
     return diff == 0 if exact else abs(diff) <= 1
 
 
+def _moved_by(a, b, ms, alt):
+    """b denotes the instant of a moved by ms milliseconds, to within the millisecond of one conversion"""
+    ka, kb = (a.year, a.month, a.day), (b.year, b.month, b.day)
+    if ka not in alt or kb not in alt:
+        return False
+    return abs((alt[kb] - alt[ka]) * DAYMS + _tod(b) - _tod(a) - ms) <= 1
+
+
 def replay(cases):
     from tracklib.core.obs_time import ObsTime
     viol, nontriv, samples = [], set(), []
@@ -79,6 +87,27 @@ def replay(cases):
         if not ok:
             viol.append(("readUnixTime", "readUnixTime(%r) = %s, specification state %s"
                          % (exp, got, [y, m, d, h, mi, s, ms]), c["day"]))
+        # ---- results are VALUES: converting another instant of the same whole second, or offsetting the result by a fraction of
+        #      a second, leaves an earlier result alone, and the results compare as their instants do
+        if ok:
+            before = _fields(r)
+            ms2 = (ms + 250 + (c["day"] % 3) * 250) % 1000
+            tod2 = c["tod"] - ms + ms2
+            try:
+                r2 = ObsTime.readUnixTime(c["day"] * 86400 + tod2 / 1000.0)
+                r3 = r.addSec(0.25) if ms <= 700 else None
+                if _fields(r) != before or r2 is r or r3 is r:
+                    viol.append(("readUnixTime/earlier-result-changed", "readUnixTime(%r) gave %s; after converting %r (and addSec(0.25)) "
+                                 "the first result reads %s" % (exp, before, c["day"] * 86400 + tod2 / 1000.0, _fields(r)), c["day"]))
+                elif not _same_instant(r2, (y, m, d), tod2, False, alt):
+                    viol.append(("readUnixTime", "readUnixTime(%r) = %s right after readUnixTime(%r)" % (c["day"] * 86400 + tod2 / 1000.0, _fields(r2), exp), c["day"]))
+                elif bool(r < r2) != (ms < ms2) or bool(r2 < r) != (ms2 < ms) or r == r2:
+                    viol.append(("compare/same-second", "%s vs %s (same second, read from %r and %r): <, >, == disagree with the seconds"
+                                 % (_fields(r), _fields(r2), exp, c["day"] * 86400 + tod2 / 1000.0), c["day"]))
+                elif r3 is not None and (not _moved_by(r, r3, 250, alt) or not (r < r3) or r3 < r or r3 == r):
+                    viol.append(("addSec/sub-second", "%s.addSec(0.25) = %s" % (_fields(r), _fields(r3)), c["day"]))
+            except Exception as e:  # pragma: no cover
+                viol.append(("readUnixTime", "second conversion in the same second raised %r" % (e,), c["day"]))
         # ---- day of the week (growth of the clock model)
         try:
             dow = t.getDayOfWeek()
